@@ -635,6 +635,29 @@ func (env *SpecEnv) evalCall(x *ECall) specVal {
 			return env.iterKey(env.evalTerm(x.Args[0]))
 		case "iteridx":
 			return env.iterIdx(env.evalTerm(x.Args[0]))
+		case "scalareq":
+			// equality of the scalar (string / integer / boolean / time) leaves of two struct values; references and
+			// slices are ignored (deep copies preserve scalars exactly)
+			a, b := env.eval(x.Args[0]), env.eval(x.Args[1])
+			la, lb := a.v.leaves(nil), b.v.leaves(nil)
+			if len(la) != len(lb) {
+				specFail("scalareq: different shapes")
+			}
+			var parts []*Term
+			for i := range la {
+				if la[i].Sort == SStr || la[i].Sort == SInt || la[i].Sort == SBool {
+					parts = append(parts, c.Eq(la[i], lb[i]))
+				}
+			}
+			return specVal{v: leaf(c.And(parts...)), t: types.Typ[types.Bool]}
+		case "cast":
+			// cast(x, "*pkg.Type"): view a reference (e.g. a logged object) at a Go type
+			v := env.eval(x.Args[0])
+			ts, ok := x.Args[1].(*EStr)
+			if !ok {
+				specFail("cast(x, \"type\") needs a string literal type")
+			}
+			return specVal{v: v.v, t: env.resolveType(ts.Val)}
 		case "loglen":
 			return specVal{v: leaf(u.logLen(env.st)), t: types.Typ[types.Int]}
 		case "logverb", "logobj", "lognamespaced", "logns":
